@@ -624,11 +624,38 @@ pub fn run(tier: Tier) -> i32 {
     if tier.thorough() {
         ladder.extend([vec![1_200_000], vec![100, 100, 100], vec![3, 700, 700]]);
     }
+    // entry counts around the block sizes of writers
+    for c in [1024usize, 4096, 8192, 65_536] {
+        for n in [c - 1, c, c + 1] {
+            ladder.push(vec![n]);
+        }
+    }
+    ladder.extend([vec![32, 32], vec![25, 41], vec![33, 33], vec![16, 16, 4], vec![2, 2, 2, 2, 2, 2, 2, 2, 2, 2, 2]]);
     let mut bjobs = Vec::new();
     for sh in &ladder {
         for p in [1usize, 6] {
             bjobs.push((sh.clone(), p));
         }
+    }
+    // many axes: k unit axes and one longer axis, so that the npy header (whose length depends on the
+    // shape text) takes every length modulo its 64-byte alignment; and 2..24 axes of length 2 and 1
+    let n_ladder = ladder.len();
+    for k in 1..=64usize {
+        for last in [7usize, 42, 123, 1000] {
+            let mut sh = vec![1usize; k];
+            sh.push(last);
+            bjobs.push((sh.clone(), 1));
+            ladder.push(sh);
+        }
+    }
+    for k in 12..=24usize {
+        let sh: Vec<usize> = (0..k).map(|i| if i < 10 { 2 } else { 1 }).collect();
+        bjobs.push((sh.clone(), 1));
+        ladder.push(sh);
+        let mut sh: Vec<usize> = vec![10];
+        sh.extend((1..k).map(|i| if i < 10 { 2 } else { 1 }));
+        bjobs.push((sh.clone(), 1));
+        ladder.push(sh);
     }
     let res = par_map(bjobs.len(), |i| check_big(&bjobs[i].0, bjobs[i].1, &scratch));
     let mut bev = 0;
@@ -642,7 +669,7 @@ pub fn run(tier: Tier) -> i32 {
         name: "lib+cli: size ladder".into(),
         evaluations: bev,
         nontrivial: bev,
-        note: format!("{} shapes with {} .. {} cells x precision {{1,6}}: write/read of both formats at L1, and text -> view -> view -O npy -> view (real pipes and a FIFO) at L2, every value compared exactly", ladder.len(), ladder.iter().map(|s| s.iter().product::<usize>()).min().unwrap(), ladder.iter().map(|s| s.iter().product::<usize>()).max().unwrap()),
+        note: format!("{n_ladder} shapes with {} .. {} cells x precision {{1,6}}, and {} shapes with 2..65 axes (unit axes around one longer axis, so that the npy header takes every length modulo 64; 12..24 axes of lengths 10/2/1) at precision 1: write/read of both formats at L1, and text -> view -> view -O npy -> view (real pipes and a FIFO) at L2, every value compared exactly", ladder.iter().map(|s| s.iter().product::<usize>()).min().unwrap(), ladder.iter().map(|s| s.iter().product::<usize>()).max().unwrap(), ladder.len() - n_ladder),
         exhaustive: true,
         extra: vec![("cells".into(), J::Arr(ladder.iter().map(|s| J::u(s.iter().product::<usize>())).collect()))],
     });
